@@ -38,6 +38,7 @@ def classes():
             self.program = settings.get("program") or {"p_act": 0.0, "actions": []}
             self.my_orders = []
             self.n_consults = 0
+            self.n_fills_seen = 0
 
         # -- interpretation of the program table -------------------------
         def _pick_market(self, markets, spec):
@@ -169,8 +170,16 @@ def classes():
             return out
 
         # -- the user-code boundary --------------------------------------
+        def _live_executed_order(self, log):
+            taps.emit("cb", agent=self, what="executed", log=log, hold=self._hold())
+
         def submit_orders(self, markets):
             self.n_consults += 1
+            if self.program.get("rebind") and self.n_fills_seen >= 1 and "executed_order" not in self.__dict__ \
+                    and self.n_consults >= self.program["rebind"]:
+                # a user agent may install another fill handler on its instance while the run is going on
+                self.executed_order = self._live_executed_order
+                taps.emit("handler_rebound", agent=self)
             taps.emit("consult_call", agent=self, hft=isinstance(self, HighFrequencyAgent), time=markets[0].get_time())
             out = self._decide(markets)
             for o in out:
@@ -193,6 +202,11 @@ def classes():
             taps.emit("cb", agent=self, what="canceled", log=log, hold=self._hold())
 
         def executed_order(self, log):
+            self.n_fills_seen += 1
+            if "executed_order" in self.__dict__:
+                # this class-level handler has been replaced on the instance: a call here went to a stale handler
+                taps.emit("cb_stale", agent=self, what="executed", log=log)
+                return
             taps.emit("cb", agent=self, what="executed", log=log, hold=self._hold())
 
     class ScriptAgent(_Script, Agent):
@@ -265,6 +279,12 @@ def classes():
 
         def process_market_step_end_log(self, log):
             self._p(log, "step_end")
+
+    class DepthMarket(Market):
+        """a user-written market class that is 'falsy' while its book is empty (len = resting orders)."""
+
+        def __len__(self):
+            return len(self.buy_order_book) + len(self.sell_order_book)
 
     class FalsyRecordingLogger(RecordingLogger):
         """a logger that is 'falsy' while it has processed nothing (e.g. a saver exposing its number of rows)."""
@@ -360,6 +380,7 @@ def classes():
         "ScriptHFTAgent": ScriptHFTAgent,
         "RecordingLogger": RecordingLogger,
         "FalsyRecordingLogger": FalsyRecordingLogger,
+        "DepthMarket": DepthMarket,
         "ProbeEvent": ProbeEvent,
     }
     return _classes
@@ -455,7 +476,7 @@ def run_runner_case(case, sinks=(), with_logger=True, extra_classes=(), settings
             runner = SequentialRunner(settings=settings, prng=random.Random(case["seed"]), logger=out.logger)
             out.runner = runner
             out.simulator = runner.simulator
-            for c in (cls["ScriptAgent"], cls["ScriptHFTAgent"], cls["ProbeEvent"]) + tuple(extra_classes):
+            for c in (cls["ScriptAgent"], cls["ScriptHFTAgent"], cls["ProbeEvent"], cls["DepthMarket"]) + tuple(extra_classes):
                 runner.class_register(c)
             buf = io.StringIO()
             with contextlib.redirect_stdout(buf):
@@ -555,6 +576,8 @@ def gen_runner_case(rng, tier, profile="matching", **kw):
             "marketPrice": p,
             "outstandingShares": rng.choice([1000, 2500, 25000]),
         }
+        if rng.random() < 0.1:
+            cfg[name]["class"] = "DepthMarket"   # user-registered Market subclass defining __len__
         if rng.random() < 0.5:
             cfg[name]["fundamentalVolatility"] = rng.choice([0.0, 0.001, 0.01])
             cfg[name]["fundamentalDrift"] = rng.choice([0.0, 0.0, 0.0005, -0.0005])
@@ -653,6 +676,8 @@ def gen_accounting_case(rng, tier, hostile=None, hft=None):
               "actions": [a for a in acts if a[0] > 0]}
         if rng.random() < 0.1:
             pr["scalars"] = rng.choice(["numpy", "int"])
+        if rng.random() < 0.1:
+            pr["rebind"] = rng.randint(2, 12)
         return pr
 
     for g in range(rng.choice([1, 2, 3])):
@@ -709,7 +734,7 @@ def gen_accounting_case(rng, tier, hostile=None, hft=None):
 # built-in and probe events
 # ---------------------------------------------------------------------------
 def spot_names(cfg):
-    return [n for n in cfg["simulation"]["markets"] if cfg[n]["class"] == "Market"]
+    return [n for n in cfg["simulation"]["markets"] if cfg[n]["class"] in ("Market", "DepthMarket")]
 
 
 def add_builtin_events(rng, cfg, which=None, sessions=None, p_each=0.5):
